@@ -12,7 +12,9 @@ from vf.core import sig_of  # noqa: E402
 ID = "C07"
 LEVEL = "exploration"
 RULE = ("scenario A (2/3 of the cases): a component repository (linear release branch with increasing build "
-        "tags, optionally a forked second branch) and a parent repository (random DAG, 1-3 branches, build "
+        "tags, optionally a forked second branch; in 30% the main line is origin/master with build_<n>_master_success tags whose "
+        "major.minor come from a VERSION file that changes along the branch; commits minutes, hours or days apart, "
+        "parent commits younger than the component commits they pin) and a parent repository (random DAG, 1-3 branches, build "
         "tags) whose every commit pins an existing component version in a DEPENDS file, pins non-decreasing "
         "along every edge; repositories supplied in both dict orders. Oracle: for every reported component "
         "build r and parent branch PB the harness computes the parent builds whose pinned version contains "
@@ -23,9 +25,10 @@ RULE = ("scenario A (2/3 of the cases): a component repository (linear release b
         "cycle, otherwise components before owners. Non-trivial = scenario A where >=2 parent builds pin "
         "different component versions and some included_at entry was observed, or scenario B graph with "
         ">=3 repositories and >=2 edges; distinct by scenario.")
-ASSUMPTIONS = ["completeness of included_at is asserted for builds of the component branch the pins refer to; "
-               "for builds of another component branch only soundness (the property does not fix cross-branch "
-               "containment)", "commit times within the cut-off windows"]
+ASSUMPTIONS = ["completeness of included_at is asserted for builds of the component lineage the pins refer to (main-line "
+               "builds; when a lower-sorted release branch owns the main line below its fork point, a pin is credited to "
+               "the builds of the lineage the pinned build is reported in); for builds of another lineage only soundness "
+               "(the property does not fix cross-branch containment)", "commit times within the cut-off windows"]
 TIERS = {
     "quick": {"shards": 4, "cases": 3000, "timeout": 300},
     "thorough": {"shards": 16, "cases": 9000, "timeout": 3000},
@@ -45,7 +48,10 @@ TECHNIQUE = "runtime monitoring: pin/reachability oracle over generated componen
 TEXT = "BUG-7"
 
 
-def gen_comp(rng, name="comp"):
+def gen_comp(rng, name="comp", step=60):
+    """step: seconds between commits.  In 'master mode' the main line is origin/master, its build tags carry no
+    major.minor (build_<n>_master_success): the numbers are completed from the VERSION file of the tagged commit,
+    whose major.minor may change along the branch"""
     m = rng.randint(2, 9)
     commits = {}
     base = 1_600_000_000
@@ -53,27 +59,32 @@ def gen_comp(rng, name="comp"):
     versions = []
     bn = 0
     prev = None
+    master_mode = rng.random() < 0.3
+    minor = 20
     for cid in range(1, m + 1):
         msg = "BUG-7 c%d" % cid if rng.random() < 0.5 else "misc"
-        commits[cid] = mg.Commit(name, cid, [prev] if prev else [], msg, base + cid * 60, {})
+        if master_mode and cid > 1 and rng.random() < 0.3:
+            minor += 1
+        files = {"VERSION": "10.%d" % minor} if master_mode else {}
+        commits[cid] = mg.Commit(name, cid, [prev] if prev else [], msg, base + cid * step, files)
         prev = commits[cid]
         if rng.random() < 0.6:
-            bn += 1
-            tags[f"build_{bn}_release_10_20_success"] = cid
-            versions.append((cid, (10, 20, bn)))
-            if rng.random() < 0.15:
-                # the same commit was built once more (second build tag, another number)
+            for _ in range(2 if rng.random() < 0.15 else 1):
+                # (sometimes the same commit was built once more: second build tag, another number)
                 bn += 1
-                tags[f"build_{bn}_release_10_20_success"] = cid
-                versions.append((cid, (10, 20, bn)))
-    heads = {"origin/release/10.20": m}
+                tags[f"build_{bn}_master_success" if master_mode else f"build_{bn}_release_10_20_success"] = cid
+                versions.append((cid, (10, minor, bn)))
+    heads = {"origin/master" if master_mode else "origin/release/10.20": m}
     if rng.random() < 0.5:
         f = rng.randint(1, m)
         prev = commits[f]
         k = rng.randint(1, 4)
+        # the side branch may have been started (much) later than the main line ended
+        later = m + (rng.choice([0, 0, 3, 40]) if step > 60 else 0)
         for cid in range(m + 1, m + k + 1):
             msg = "BUG-7 c%d" % cid if rng.random() < 0.5 else "misc"
-            commits[cid] = mg.Commit(name, cid, [prev], msg, base + cid * 60, {})
+            commits[cid] = mg.Commit(name, cid, [prev], msg, base + (cid + later) * step,
+                                     {"VERSION": "10.30"} if master_mode else {})
             prev = commits[cid]
             if rng.random() < 0.6:
                 bn += 1
@@ -82,7 +93,8 @@ def gen_comp(rng, name="comp"):
     return mg.Repo(name, commits, heads, tags), versions
 
 
-def gen_parent(rng, versions, versions2=None):
+def gen_parent(rng, versions, versions2=None, comp=None, comp2=None, step=60):
+    """commit times are consistent: a parent commit is younger than the component commits it pins"""
     n = rng.randint(2, 12)
     commits = {}
     pins = {}
@@ -107,7 +119,13 @@ def gen_parent(rng, versions, versions2=None):
             lo2 = max([pins2[p] for p in ps], default=0)
             pins2[cid] = min(len(versions2) - 1, lo2 + rng.choice([0, 0, 1, 1, 2]))
             depends["comp2"] = "%d.%d.%d" % versions2[pins2[cid]][1]
-        commits[cid] = mg.Commit("par", cid, [commits[p] for p in ps], msg, base + cid * 60,
+        ts = base + cid * 60
+        if step > 60:
+            pinned = [comp.commits[versions[pin][0]].committed_date]
+            if versions2:
+                pinned.append(comp2.commits[versions2[pins2[cid]][0]].committed_date)
+            ts = max(pinned + [commits[c].committed_date for c in ids[:cid - 1]]) + rng.randint(60, step)
+        commits[cid] = mg.Commit("par", cid, [commits[p] for p in ps], msg, ts,
                                  {"DEPENDS": json.dumps(depends)})
     names = rng.sample(["origin/release/5.4", "origin/release/5.10", "origin/release/5.5", "origin/master"],
                        rng.randint(1, 3))
@@ -158,6 +176,15 @@ def judge_component(ctx, data, cname, comp, par, versions, pins, case):
         m = re.match(r"build_(\d+)_release_(\d+)_(\d+)_success", tname)
         ptags.setdefault(cid, set()).add("%s.%s.%s" % (m.group(2), m.group(3), m.group(1)))
     prb = {br.branch_name: br for br in prg.branches}
+    main_head = comp.branches.get("origin/master", comp.branches.get("origin/release/10.20"))
+    main_line = mg.ancestors(comp.commits[main_head])
+    # when the main line is master, a release branch forked from it sorts lower and OWNS the part of the main
+    # line below its fork point: the report lists those builds under the release branch and lists their
+    # commits once more under the first own build of master.  The report credits a parent build to the
+    # lineage the pinned build belongs to, so containment is judged per lineage (see DESIGN 6.2, C07)
+    side_owned = set()
+    if "origin/master" in comp.branches and "origin/release/10.30" in comp.branches:
+        side_owned = mg.ancestors(comp.commits[comp.branches["origin/release/10.30"]])
     n_entries = 0
     problems = []
     for cbr in crg.branches:
@@ -165,7 +192,9 @@ def judge_component(ctx, data, cname, comp, par, versions, pins, case):
             if r.build_type != RBuild.NORMAL:
                 continue
             rc = r.rcommit.commit.intid
-            in_pinned_branch = cbr.branch_name == "release/10.20"
+            # builds of the main line (the only ones the parent can pin) are judged strictly, wherever the
+            # report put them (a lower-sorted side branch owns the part of the main line below its fork point)
+            in_pinned_branch = rc in main_line
             got = {}
             for (rid, bname, bnum) in r.included_at:
                 n_entries += 1
@@ -178,6 +207,8 @@ def judge_component(ctx, data, cname, comp, par, versions, pins, case):
 
                 def contains(x):
                     cv = versions[pins[x]][0]
+                    if (rc in side_owned) != (cv in side_owned):
+                        return False
                     return rc in mg.ancestors(comp.commits[cv])
                 cont = {x for x in e['builds'] if contains(x)}
                 minimal = {x for x in cont
@@ -358,17 +389,21 @@ def run_shard(ctx):
             registry = [nm for nm in deps if rng.random() < 0.6] if rng.random() < 0.3 else []
             judge_b(ctx, deps, {"kind": "deps", "deps": deps, "registry": registry})
             continue
-        comp, versions = gen_comp(rng)
+        # minutes between commits, or hours / days (commit times stay consistent between the repositories)
+        step = 60 if rng.random() < 0.6 else rng.choice([7 * 3600, 2 * 86400])
+        if step > 60:
+            ctx.count("histories_spread_over_days")
+        comp, versions = gen_comp(rng, step=step)
         if not versions:
             ctx.count("component_without_builds(skipped)")
             continue
         second = None
         versions2 = None
         if rng.random() < 0.35:
-            comp2, versions2 = gen_comp(rng, "comp2")
+            comp2, versions2 = gen_comp(rng, "comp2", step=step)
             if not versions2:
                 versions2 = None
-        par, pins, pins2 = gen_parent(rng, versions, versions2)
+        par, pins, pins2 = gen_parent(rng, versions, versions2, comp, comp2 if versions2 else None, step)
         if versions2:
             second = (comp2, versions2, pins2)
         rev = rng.random() < 0.5
